@@ -156,6 +156,33 @@ def r4_dispatch(ck, cx):
                         a0 = ev._sub.args[0] if ev._sub.args else None
                         masked = a0 is not None and U(a0).replace(' ', '') in ('byte2int(%s[0])&127' % data, '%s[0]&127' % data)
                         exc_ok = bool(gate and masked)
+        # sub-function dispatch: reached for every decoded message that has a sub_function_code, including 0
+        _, stab = table(cx, dn, '__sub_function_table')
+        has_zero = any(code_of(cx, k, 'sub_function_code') == 0 for k in stab)
+        reclass = 0
+        for p in cx.enum(h, d, max_depth=0):
+            annotate(p, heap=False)
+            idx = [i for i, ev in enumerate(p.ev) if ev.kind == 'assign' and isinstance(ev.a, ast.Attribute) and ev.a.attr == '__class__']
+            if not idx:
+                continue
+            reclass += 1
+            for ev in p.ev[:idx[0]]:
+                if ev.kind == 'cond' and ev.a is True and 'sub_function_code' in U(ev._sub):
+                    t = ev._sub
+                    direct = (isinstance(t, ast.Attribute) and t.attr == 'sub_function_code') or \
+                        (isinstance(t, ast.Call) and callee_name(t) in ('hasattr', 'getattr') and len(t.args) >= 2 and
+                         isinstance(t.args[1], ast.Constant) and t.args[1].value == 'sub_function_code') or \
+                        (isinstance(t, ast.Compare) and 'sub_function_code' in U(t.left) and not isinstance(t.left, ast.Call))
+                    if not direct:
+                        continue
+                    presence = (isinstance(t, ast.Call) and callee_name(t) == 'hasattr') or \
+                        (isinstance(t, ast.Compare) and isinstance(t.ops[0], (ast.IsNot, ast.NotEq)) and U(t.comparators[0]) == 'None')
+                    ck.ob('R4', h.qn, 'sub-function dispatch tests the presence of the code, not its truthiness (sub-function 0 is legal)',
+                          presence or not has_zero, detail='sub-dispatch-truthiness %s' % U(t)[:50], loc=cx.floc(h, ev.node),
+                          message='%s._helper dispatches on sub-functions only when `%s` is truthy: sub-function 0x0000 is never re-classed' % (dn, U(t)))
+            keyev = [ev for ev in p.ev[:idx[0]] if ev.kind == 'call' and callee_name(ev.node) == 'get' and 'sub_function_code' in U(ev._sub)]
+            ck.ob('R4', h.qn, 'sub-function class looked up by the decoded sub_function_code', bool(keyev), detail='sub-lookup-key', loc=cx.floc(h))
+        ck.ob('R4', h.qn, '_helper re-classes by sub-function code', reclass > 0, detail='no-reclass-path', loc=cx.floc(h))
         ck.ob('R4', h.qn, '_helper looks the class up', keyed > 0, detail='no-lookup', loc=cx.floc(h))
         ck.ob('R4', h.qn, '_helper calls decode on the PDU body', sliced > 0, detail='no-decode-call', loc=cx.floc(h))
         if dn == 'ClientDecoder':
